@@ -1435,7 +1435,14 @@ impl DateTimePrinter {
         // seem clearly indicated, we choose to do that here. An alternative
         // would be to return an error. It isn't clear how important this is in
         // practice though.
-        if offset.part_seconds_ranged().abs() >= C(30) {
+        //
+        // The exception is when rounding up would go beyond the maximum
+        // offset of `25:59`. An hour of `26` is not a valid offset, and
+        // so the result could not be parsed back. In that case, we
+        // truncate instead.
+        if offset.part_seconds_ranged().abs() >= C(30)
+            && !(hours == 25 && minutes == 59)
+        {
             if minutes == 59 {
                 hours = hours.saturating_add(1);
                 minutes = 0;
